@@ -146,6 +146,23 @@ theorem C09_regress_refinement_prefix_leak :
         .del "file.t" "f"]).st ["pyscript", "b"] = [] := by
   decide
 
+/-- **Two contexts competing for one service name (witness, both subsystems).**  `file.t` claims `pyscript.shared`;
+the claim of `file.u` is refused *without being counted* (`Function.service_register` checks the owner before it
+increments `service_cnt`) and leaves an inert function; when the owner's function is deleted the count is 0 and the
+name has no owner, so a new claim of `file.u` succeeds.  (A concrete run of the model, not a universal statement: the
+service bookkeeping is otherwise tied by correspondence – seeded change C09_2, which counts the refused claim, is
+reported by the check as `ran-inactive` / `leak:service`.) -/
+theorem C09_service_competition_witness (sub : Sub) :
+    let w1 := run delContinuesNow sub [.define "file.t" "f0" [] [] ["pyscript.shared"] false false,
+                                       .define "file.u" "f0" [] [] ["pyscript.shared"] false false]
+    let w2 := step delContinuesNow sub w1 (.del "file.t" "f0")
+    let w3 := step delContinuesNow sub w2 (.define "file.u" "f0" [] [] ["pyscript.shared"] false false)
+    (svcCount w1.svc "pyscript.shared" = 1 ∧ ownerOf w1.owner "pyscript.shared" = some "file.t" ∧
+      (w1.started.map (·.services)) = [["pyscript.shared"], []]) ∧
+    (svcCount w2.svc "pyscript.shared" = 0 ∧ ownerOf w2.owner "pyscript.shared" = none) ∧
+    (svcCount w3.svc "pyscript.shared" = 1 ∧ ownerOf w3.owner "pyscript.shared" = some "file.u") := by
+  cases sub <;> decide
+
 /-- non-vacuity: two functions, one redefined, one kept in a container after `del`; tables follow the survivors -/
 example : ((run delContinuesNow .legacy [.define "c" "f" [[["pyscript", "a"], ["pyscript", "a", "old"]]] ["ev"] [] false false,
       .define "c" "g" [[["pyscript", "b"]]] [] [] false false, .put 0 "c" "g", .del "c" "g",
